@@ -20,7 +20,13 @@ package prefix
 //@ import transports "github.com/refraction-networking/conjure/pkg/transports"
 //@ import pb "github.com/refraction-networking/conjure/proto"
 // the tag obfuscator as the transport uses it (its XOR implementation is under contract in pkg/transports, C15)
+// revealOK / revealedTag: what revealing a given tag with a given key yields (assumed: the reveal is a function of the
+// obfuscator, the tag bytes and the key - nothing modifies the tag between the attempts of one getReg call)
+//@ ghost func revealOK(o transports.Obfuscator, cipherText []byte, privateKey [32]byte) bool
+//@ ghost func revealedTag(o transports.Obfuscator, cipherText []byte, privateKey [32]byte) string
 //@ func (o transports.Obfuscator) TryReveal(cipherText []byte, privateKey [32]byte) ([]byte, error)
+//@   ensures @DET: (result1 == nil && result0 != nil) == revealOK(o, cipherText, privateKey)
+//@   ensures @DET: result1 == nil && result0 != nil ==> string(result0) == revealedTag(o, cipherText, privateKey)
 //@   assigns nothing
 
 // C02: a revealed tag selects a registration only through the lookup scoped to the connection's phantom address:
@@ -29,9 +35,13 @@ package prefix
 //@   requires rm != nil && t.TagObfuscator != nil
 //@   ensures @C02: result1 == nil ==> (exists s string :: s in validRegs(rm, originalDst) && result0 == validRegs(rm, originalDst)[s])
 //@   ensures @C02: result1 != nil ==> result0 == nil
+// C04 (recognition with several station keys): the tag is tried under EVERY private key of the station - if any of
+// them reveals an identifier registered (valid) for this phantom, a registration is returned
+//@   ensures @C04: (exists i int :: 0 <= i && i < len(t.Privkeys) && revealOK(t.TagObfuscator, obfuscatedID, t.Privkeys[i]) && revealedTag(t.TagObfuscator, obfuscatedID, t.Privkeys[i]) in validRegs(rm, originalDst)) ==> result1 == nil
 //@   assigns nothing
 //@ loop 1:
 //@   invariant 0 <= iter && iter <= len(t.Privkeys) && rm != nil && t.TagObfuscator != nil
+//@   invariant forall i int :: 0 <= i && i < iter ==> !(revealOK(t.TagObfuscator, obfuscatedID, t.Privkeys[i]) && revealedTag(t.TagObfuscator, obfuscatedID, t.Privkeys[i]) in validRegs(rm, originalDst))
 
 // C02/C03: the prefix transport matches a connection only to a valid registration of the connection's own phantom
 // that was registered for the PREFIX transport; on every non-match nothing is consumed from the buffered data.
